@@ -243,9 +243,15 @@ type evidence struct {
 }
 
 func writeEvidence(ev evidence) {
-	os.MkdirAll(filepath.Join(root, "evidence"), 0o755)
+	// VERIF_EVIDENCE_DIR redirects the file (runs against deliberately broken
+	// trees must not overwrite the evidence of the real tree)
+	dir := filepath.Join(root, "evidence")
+	if d := os.Getenv("VERIF_EVIDENCE_DIR"); d != "" {
+		dir = d
+	}
+	os.MkdirAll(dir, 0o755)
 	b, _ := json.MarshalIndent(ev, "", " ")
-	os.WriteFile(filepath.Join(root, "evidence", ev.PropertyID+".json"), append(b, '\n'), 0o644)
+	os.WriteFile(filepath.Join(dir, ev.PropertyID+".json"), append(b, '\n'), 0o644)
 }
 
 type replayFile struct {
